@@ -1083,12 +1083,18 @@ Error JitAllocator::release(void* rx) noexcept {
 }
 
 static Error JitAllocatorImpl_shrink(JitAllocatorPrivateImpl* impl, JitAllocator::Span& span, size_t new_size, bool already_under_write_scope) noexcept {
-  JitAllocatorBlock* block = static_cast<JitAllocatorBlock*>(span._block);
-  if (ASMJIT_UNLIKELY(!block)) {
+  if (ASMJIT_UNLIKELY(!span._block)) {
     return make_error(Error::kInvalidArgument);
   }
 
   LockGuard guard(impl->lock);
+
+  // Don't trust `span._block` - the span could have been allocated by a different allocator or the block could have
+  // been already deleted (stale span), so look the block up by the address like `release()` and `query()` do.
+  JitAllocatorBlock* block = impl->tree.get(static_cast<uint8_t*>(span.rx()));
+  if (ASMJIT_UNLIKELY(!block || block != span._block)) {
+    return make_error(Error::kInvalidArgument);
+  }
 
   // Offset relative to the start of the block.
   JitAllocatorPool* pool = block->pool();
